@@ -481,6 +481,31 @@ func immutStream(r *Run) {
 			}
 		}
 	}
+	// a third fixed family: the caller binds `forloop` itself (a record with cycle counters of the right Go
+	// type): a render must not write through it
+	{
+		i := func(n int64) *V { return VInt(0, n) }
+		recs := []*V{
+			VStrMap(SKV(".cycles", VMap(TStr, TInt(0), SKV("", i(1)), SKV("g", i(5))))), VStrMap(SKV(".cycles", VMap(TStr, TInt(0)))),
+			VStrMap(SKV(".cycles", VMap(TStr, TInt(0), SKV("", i(0)))), SKV("index", i(1))),
+		}
+		tmpls := []string{"{% cycle 'a','b' %}", "{% cycle 'g': 'a','b' %}{% cycle 'a' %}",
+			"{% for i in (1..2) %}{% cycle 'a','b' %}{% endfor %}{% cycle 'a','b' %}", "{{ forloop.index }}{% assign forloop = forloop %}{% cycle 1, 2 %}"}
+		for ti, src := range tmpls {
+			for ri, rec := range recs {
+				if !r.Mine() {
+					continue
+				}
+				c := immutCaseT{cfg: engineCfg{}, srcs: []string{src}, envs: []map[string]*V{{"forloop": rec}},
+					ops: []immutOp{{0, 0, 'R'}, {0, 0, 'R'}, {0, 0, 'S'}}}
+				cl := c.line()
+				res := immutCase(r, c, cl)
+				r.Count(fmt.Sprintf("fixed-family reserved-names %d/%d", ti, ri))
+				r.Nontrivial(cl)
+				r.Emit(cl, res)
+			}
+		}
+	}
 	nPools, perPool := 60, 8
 	if r.Tier == "thorough" {
 		nPools, perPool = 700, 10
